@@ -254,6 +254,8 @@ func genC11(g *Gen) error {
 		{shardinfo, "isTimeCondition", "src_isTimeCondition"},
 		{shardinfo, "ShardGroupInfo.TargetShards", "src_TargetShards"},
 		{shardinfo, "ShardGroupInfo.genShardInfosByIndex", "src_genShardInfosByIndex"},
+		{shardinfo, "ShardGroupInfo.TargetShardsHintQuery", "src_TargetShardsHintQuery"},
+		{shardinfo, "ShardGroupInfo.getShardsAndSeriesKeyForHintQuery", "src_getShardsAndSeriesKeyForHintQuery"},
 		{shardinfo, "ShardGroupInfo.DestShard", "src_DestShard"},
 		{shardinfo, "ShardGroupInfo.Deleted", "src_Deleted"},
 		{shardinfo, "ShardGroupInfo.Truncated", "src_Truncated"},
